@@ -46,9 +46,9 @@ def strategy():
     rop = st.tuples(st.sampled_from(QKINDS), st.lists(st.integers(0, 63), min_size=1, max_size=4), st.integers(0, 31))
     return st.fixed_dictionaries(
         {
-            'cfg': gen.config(targets=(64, 1000, 4 * 1024**3)),
+            'cfg': gen.config(targets=(64, 64, 1000, 4 * 1024**3)),
             'pool': st.lists(gen.content_desc(2500, 0), min_size=3, max_size=8),
-            'pre': st.lists(st.tuples(st.integers(0, 7), st.integers(0, 3)), min_size=1, max_size=6),
+            'pre': st.lists(st.tuples(st.integers(0, 7), st.sampled_from([0, 0, 0, 1, 2, 3])), min_size=1, max_size=6),
             'writers': st.lists(st.lists(add, min_size=1, max_size=3), min_size=1, max_size=2),
             'readers': st.lists(
                 st.fixed_dictionaries({'long': st.booleans(), 'ops': st.lists(rop, min_size=2, max_size=4)}), min_size=1, max_size=2
@@ -345,6 +345,12 @@ SCENARIOS = {
     'bulk-seek-vs-compressing-packer': {'pre': [(0, 0), (1, 0), (3, 2)], 'writers': [[(2, False)]],
                                         'readers': [{'long': False, 'ops': [('bulkseek', [6, 11, 21], 2), ('bulkseek', [6, 11, 16], 1)]}],
                                         'packer': {'mode': 1, 'clean_per_pack': True, 'validate': True}},
+    # small pack_size_target: every packed object lands in its own pack file
+    'bulk-noskip-vs-multi-pack-packer': {'cfg': {'hash_type': 'sha1', 'loose_prefix_len': 0, 'level': 3, 'pack_size_target': 64},
+                                         'pre': [(0, 0), (1, 0), (3, 0)], 'writers': [[(2, False)]],
+                                         'readers': [{'long': False, 'ops': [('bulk', [6, 11, 21], 0), ('meta', [6, 11, 21, 16], 0),
+                                                                             ('bulkseek', [6, 11, 21], 2)]}],
+                                         'packer': {'mode': 1, 'clean_per_pack': True, 'validate': True}},
     'long-handle-meta-get': {'pre': [(0, 3), (3, 0)], 'writers': [[(2, False), (3, True)]],
                              'readers': [{'long': True, 'ops': [('meta', [6, 21], 0), ('get', [21], 0), ('has', [6, 16, 21], 0)]}],
                              'packer': {'mode': 5, 'clean_per_pack': True, 'validate': True}},
@@ -354,7 +360,7 @@ _ORDERS = (['w0', 'r0', 'packer'], ['packer', 'r0', 'w0'], ['r0', 'packer', 'w0'
 
 def _fixed_case(name, order, schedule):
     spec = SCENARIOS[name]
-    return {'cfg': _CFG, 'pool': _POOL, 'pre': spec['pre'], 'writers': spec['writers'], 'readers': spec['readers'],
+    return {'cfg': spec.get('cfg', _CFG), 'pool': _POOL, 'pre': spec['pre'], 'writers': spec['writers'], 'readers': spec['readers'],
             'packer': spec['packer'], 'schedule': schedule, 'order': order, 'scenario': name}
 
 
